@@ -5,7 +5,8 @@ LEVEL = 'exploration'
 SHARDS = {'quick': 2, 'thorough': 16}
 BUDGET = {'quick': 70, 'thorough': 600}
 TECHNIQUE = 'runtime monitoring at the client boundary: generated forwarding programs are retrieved with sigtools.signature and then really executed on every call shape the reported signature accepts; taint clause decided from the generator ground truth'
-RULE = ('seeded programs of the forwarding grammar (outer in U({a,b},2) with a star parameter; 1-3 forwarding calls to callees of '
+RULE = ('(also: forwarding functions with up to three named parameters of their own, drawn by kind profile; an earlier same-named definition in the same file that was already inspected) '
+        'seeded programs of the forwarding grammar (outer in U({a,b},2) with a star parameter; 1-3 forwarding calls to callees of '
         'U({x,y,z},3) with 0-2 leading positionals, own/none/foreign/doubled star arguments and explicit keywords; 29 statement '
         'contexts incl. calls nested in a scope and inside another call; 8 callee resolution routes; 7% of the calls written so that they cannot be declared; taint statements from two tables (23 for *args, 26 for **kwargs) placed before/between/'
         'after the calls; decoys) + every taint construct x {before, after} x {top-level, nested, comprehension}. Each untainted '
